@@ -1,0 +1,33 @@
+//go:build verif
+
+package internal
+
+import (
+	"go/build/constraint"
+	"io"
+)
+
+// This file exists only under the "verif" build tag. It exports unexported
+// helpers, unchanged, to the verification harness kept outside this
+// repository. It adds no behaviour.
+
+// VerifInvertCffConstraint is invertCffConstraint.
+func VerifInvertCffConstraint(exp *constraint.Expr) { invertCffConstraint(exp) }
+
+// VerifHasCffTag is hasCffTag.
+func VerifHasCffTag(exp constraint.Expr) bool { return hasCffTag(exp) }
+
+// VerifWriteInvertedCffTag is writeInvertedCffTag.
+func VerifWriteInvertedCffTag(w io.Writer, bs []byte) error {
+	return writeInvertedCffTag(w, bs)
+}
+
+// VerifToposort is toposort over a graph given by its dependency function.
+func VerifToposort(count int, deps func(int) []int) []int {
+	return toposort(graph{Count: count, Dependencies: deps})
+}
+
+// VerifPrintImportAlias is printImportAlias.
+func VerifPrintImportAlias(importPath, alias string, addImports map[string]string, aliases map[string]struct{}) string {
+	return printImportAlias(importPath, alias, addImports, aliases)
+}
